@@ -116,10 +116,17 @@ func NewLoaders(file Resource) ([]*Loader, error) {
 
 	// collection
 	out := make([]*Loader, len(offsets))
+	// the fonts of a collection have distinct table directories: bound their
+	// total size by the size of the file (the offsets may be equal, or overlap)
+	directoriesSize := int64(0)
 	for i, o := range offsets {
 		out[i], err = parseOneFont(file, o, relativeOffset)
 		if err != nil {
 			return nil, err
+		}
+		directoriesSize += 16 * int64(len(out[i].tables))
+		if directoriesSize > out[i].fileSize {
+			return nil, errors.New("invalid collection: overlapping table directories")
 		}
 	}
 	return out, nil
